@@ -4,7 +4,7 @@ cd "$(dirname "$0")" || exit 2
 export GOFLAGS=-mod=mod GOPROXY=off GOSUMDB=off GOTOOLCHAIN=local GOWORK=off
 mkdir -p bin evidence
 if [ -x bin/tallycheck ]; then
-  newer=$(find tallycheck -name '*.go' -newer bin/tallycheck -o -name 'go.*' -newer bin/tallycheck | head -1)
+  newer=$(find tallycheck -name '*.go' -newer bin/tallycheck -o -name 'go.*' -newer bin/tallycheck -o -name '*.txt' -newer bin/tallycheck | head -1)
   [ -z "$newer" ] && exit 0
 fi
 (cd tallycheck && go build -o ../bin/tallycheck .) || exit 2
